@@ -291,6 +291,9 @@ def len_of(ex, v, node):
 
 
 def get_slice(ex, obj, lo, hi, step, node):
+  hook = getattr(ex.contract, 'slice_hook', None)
+  if hook is not None:
+    return hook(ex, obj, lo, hi, step, node)
   return None
 
 
@@ -359,6 +362,11 @@ def _isinstance1(ex, v, t, node):
 
 
 def call_builtin(ex, name, args, kwargs, node):
+  hook = getattr(ex.contract, 'builtin_hook', None)
+  if hook is not None:
+    r = hook(ex, name, args, kwargs, node)
+    if r is not None:
+      return r
   if name == 'isinstance':
     return VBool(_isinstance(ex, args[0], args[1], node))
   if name == 'len':
@@ -601,6 +609,12 @@ def _list_method(ex, obj, name, args, kwargs, node):
     if isinstance(v, Iter):
       v = _iter_to_list(ex, v, obj.kind.elem)
     if isinstance(v, VList):
+      a, b = obj._concrete_items(), v._concrete_items()
+      if a is not None and b is not None and len(a) + len(b) <= 8:
+        for it in b:            # both small and of known length: plain appends
+          obj.append(it)
+        obj.len = z3.simplify(obj.len)
+        return NONE
       obj.extend(v)
       obj.arr = name_array(ex, obj.arr, 'ext')
       obj._wb()
